@@ -2383,14 +2383,19 @@ def load_corpus():
 def run(chk: core.Check):
     chk.rule = ("histories of JobGroup operations (create/re-open, add of 21 kinds of job incl. jobs with job_context, "
                 "delta parameters, jobs sent outside the group, duplicates, Sampler-made jobs; run/rerun parallel|sequential "
-                "with replace|append; progress; list_*), each under its own group name (plain / characters refused by some "
+                "with replace|append; progress; list_*; get_results with scripted answers to every results request: results with "
+                "or without a result_mapping / none / a failing request; track_progress; deletion of the group by name, "
+                "with all groups, by date with the cut-off around its creation second, each followed by re-opening the name; "
+                "list_existing and deletions / saves of groups with other, close names), each under its own group name (plain / characters refused by some "
                 "platforms / punctuation / non-ASCII) and in part next to a bystander group with a close name, against a scripted server (accept with fresh id / refuse at every "
                 "loop position / status answers / status requests that fail: unrecoverable HTTP status, recoverable fault, five "
-                "recoverable faults in a row / script exhausted = process killed at that call), jobs of one group (and of the "
+                "recoverable faults in a row / Ctrl-C in a status request or in the sleep that follows it / script exhausted = process "
+                "killed at that call), under a clock the harness sets (whole seconds), jobs of one group (and of the "
                 "bystander group) sharing platform name and URL but not token or proxies; distinct = distinct "
                 "sequences of (operation, mode, result, group size); non-trivial = a launch refused or killed part-way, or "
                 "a re-open between an add and a launch; plus scripts of file-primitive calls (write/read/has/delete/open) "
-                "over 2-4 close file names in three addressing styles")
+                "over 2-4 close file names in three addressing styles, and scripts of JobGroup(name) / add / list_existing / "
+                "delete_job_group / delete_all_job_groups / delete_job_groups_date calls over 2-5 close group names")
     chk.assumptions = [
         "data directory readable and writable (a private temporary directory; the user's real persistent-data "
         "directory is never touched: XDG_DATA_HOME is re-pointed before perceval is imported); one JobGroup object per "
@@ -2406,7 +2411,17 @@ def run(chk: core.Check):
         "RemoteJob.STATUS_REFRESH_DELAY is set to -1 so that every status evaluation may observe a new server status "
         "(models more than 1 s between evaluations)",
         "command delta parameters limited to max_samples, mapping delta parameters to {max_samples, max_shots} (what Sampler builds)",
-        "group names are non-empty file names without a path separator, not '.'/'..', at most 30 characters; the data "
+        "a process that deletes a group (by name, with all groups, by date) drops its JobGroup object of that group and opens "
+        "the name again; `datetime.now()` inside job_group is a clock set by the harness, in whole seconds (created_date is "
+        "stored with second resolution); the date given to delete_job_groups_date is a whole second >= the clock's origin",
+        "results delivered by the server are well formed (decodable; a result_mapping names perceval.utils."
+        "sample_count_to_probs and the results are a BSCount), absent (null / no 'results' key), or the request fails; "
+        "a Ctrl-C arrives in a status request, a results request, or a time.sleep of job_group — not between the server's "
+        "answer to create_job/rerun_job and the write that follows it (stated residue)",
+        "track_progress: a sleep reached without any server call since the previous one, while something still counts as "
+        "waiting/running, is an endless loop (only unsent jobs are left): the harness stops the process there (kill)",
+        "group names are non-empty file names without a path separator, not '.'/'..', at most 30 characters (the directory "
+        "scripts also use the names '', '.', '...' once list_existing handles them); the data "
         "directory lives on a case-sensitive, normalisation-preserving POSIX file system (names differing only in case or "
         "Unicode normalisation are not generated); file contents written through the primitives do not end in white space "
         "(read_file strips it; the group file is JSON)",
@@ -2461,7 +2476,7 @@ def run(chk: core.Check):
             else:
                 handle_batch(chk, root, [item], variant)
         # listing and deleting the group files of a directory through JobGroup's own entry points
-        for _ in range(chk.pick(250, 1200)):
+        for _ in range(chk.pick(200, 1200)):
             handle_ns(chk, root, gen_ns_script(chk.rng, chk, dots_ok))
         # the file primitives over several (close) names, against the name-keyed store of the model
         for _ in range(chk.pick(300, 1500)):
@@ -2511,7 +2526,7 @@ def run(chk: core.Check):
                                         "one re-open at every operation boundary (or none)")
         chk.exhaustive = True
         # random histories
-        n = chk.pick(1500, 4500)
+        n = chk.pick(1300, 4500)
         max_ops = chk.pick(12, 40)
         batch, reals = [], []
         for _ in range(n):
